@@ -188,6 +188,12 @@ def shapes(tier, seed):
     for h in h3:
         for c in c3:
             out.append(dict(B3, head=h, cond=c))
+    # a rule over a domain that holds no instance of its type, while such instances exist elsewhere: nothing is inferred
+    EMPTY = dict(pools={"X": 2, "Y": 0}, vars={"x": "X", "y": "Y"}, select=[["v", "x"], ["v", "y"]], outside={"Other": 2})
+    for h in heads2()[:4]:
+        for b in (J[3], SX[0], None):
+            if not any(o[0] == "ra" for o in h.values()):
+                out.append(dict(EMPTY, head=h, cond=b))
     core = S.core_leaves("x")
     bodies1 = core[:5] + [["and", core[0], core[1]], ["or", core[0], core[2]], ["not", core[1]], None]
     for h in heads1():
